@@ -21,7 +21,7 @@ UNKNOWN = 7   # token for a value the probe cannot decode
 # Catalogue of concrete sweep targets.  token -> concrete value (0 = configured default)
 PHOTON_TARGETS = [
     {"key": "pipeline.photon_collection.stamp.arguments.a", "src": "arg:a", "arity": 1,
-     "vals": {0: 10, 1: 11, 2: 12, 3: 13}, "forms": ["list", "arange"]},
+     "vals": {0: 10, 1: 11, 2: 0, 3: 13}, "forms": ["list"]},          # one of the swept values is 0
     {"key": "detector.environment.temperature", "src": "det:environment.temperature", "arity": 1,
      "vals": {0: 200.0, 1: 101.0, 2: 102.0, 3: 103.0}, "forms": ["list", "array"]},
     {"key": "pipeline.photon_collection.stamp.arguments.v", "src": "arg:v", "arity": 2,
@@ -44,7 +44,7 @@ SIGNAL_TARGETS = [
     {"key": "pipeline.charge_measurement.stamp2.arguments.g", "src": "arg:g", "arity": 1,
      "vals": {0: 70, 1: 71, 2: 72, 3: 73}, "forms": ["list", "arange"]},
     {"key": "pipeline.charge_measurement.stamp2.arguments.h", "src": "arg:h", "arity": 1,
-     "vals": {0: -1.5, 1: -2.5, 2: 1e3, 3: 1e-3}, "forms": ["list", "array"]},
+     "vals": {0: -1.5, 1: 0.0, 2: 1e3, 3: 1e-3}, "forms": ["list", "array"]},   # one of the swept values is 0.0
     {"key": "pipeline.charge_measurement.stamp2.arguments.k", "src": "arg:k", "arity": 1,
      "vals": {0: "k0", 1: "k1", 2: "k2", 3: "k3"}, "forms": ["list"], "text": True},
     {"key": "pipeline.charge_measurement.stamp2.arguments.cfg.gain", "src": "arg:cfg.gain", "arity": 1,
